@@ -1,4 +1,5 @@
 import S3V.Model.SigV2
+import S3V.Model.SigDispatch
 import S3V.Spec.SigV2
 import S3V.Crypto.All
 /-!
@@ -196,6 +197,14 @@ def verdictStr : SigV2.Verdict → String
   | .reject c => "reject:" ++ codeName c
   | .pass => "pass"
 
+/-- what the dispatcher model (`SignatureContext::check` as a whole, C07) says the recording access hook and the
+    response show: `(access, code)`; `none` = outside the dispatcher's domain -/
+def dispatchObs : SigDispatch.Result → Option (String × Option String)
+  | .accept _ ak _ _ => some ("+" ++ hexEncode ak, none)
+  | .anon => some ("anon", none)
+  | .err e => some ("-", some ((reprStr e).replace "S3V.SigV4.ErrCode." ""))
+  | .unmodelled _ => none
+
 def splitUri (u : Bytes) : Bytes × Option Bytes :=
   match SigV2.splitOnce 63 u with
   | some (p, q) => (p, some q)
@@ -260,6 +269,26 @@ def judgeE2E (id : String) (hostCfg : Option Bytes) (aks secrets : List Bytes) (
         | some c =>
           if access = "-" && backend = "-" && code = c then agree id s!"pre-auth-{c}"
           else disagree id s!"pre-auth:{c}" implStr
+        | none =>
+        -- C07: the dispatcher model on the same raw request (path-style addressing only: `prepareCtx` models no
+        -- virtual-host path parsing). The harness sends HTTP/1.1, origin-form target, empty body, provider present.
+        let w : SigV4.E2E.Wire := { http2 := false, authority := none, method, rawPath := path, rawQuery := query, headers,
+                                    body := [], bodyOnce := true, form := [], boundary := [] }
+        let env (nowNs : Int) : SigDispatch.Env :=
+          { sha256hex := fun b => Crypto.hexLower (Crypto.sha256 b), hmacSha256 := Crypto.hmacSha256, hmacSha1 := hmac,
+            base64 := b64, auth := some (SigV2.lookupIn table), nowNs }
+        let dp := SigDispatch.dispatch (env lo) w none
+        let dp' := SigDispatch.dispatch (env hi) w none
+        let dispatchComplaint : Option String :=
+          if vh.isSome then none
+          else match dispatchObs dp with
+            | none => none
+            | some (acc, c) =>
+              if acc = access && (match c with | some c => code = c && backend = "-" | none => true) then none
+              else some s!"dispatch:{acc}/{c.getD "*"}"
+        if vh.isNone && dp ≠ dp' then unmodelled id "clock-edge" else
+        match dispatchComplaint with
+        | some m => disagree id m implStr
         | none =>
         match mv with
         | .accept ak =>
